@@ -1,22 +1,13 @@
-"""Claimed properties and their manifest texts.  MANIFEST.json is generated from this
+"""Claimed properties and their manifest texts: one JSON file per property in harness/registry.d/
+(keys: technique, text, note, design_ref[, category]).  MANIFEST.json is generated from these
 (python -m harness.manifest) so that it is always valid."""
+import glob
+import json
+import os
 
-CLAIMED = {
-    "C02": {
-        "technique": "Coq proof (induction over the scanner state machine + kernel-evaluated exhaustive bound) "
-                     "with OCaml-extracted model differential against the implementation",
-        "text": "Machine-checked theorems over a Gallina transcription of split_hed_string/split_into_groups/__init__ "
-                "and the parenthesis check, for ALL strings (induction over the scanner state machine and a token-level "
-                "simulation): never raises; the tree equals the character-level specification (one tag per maximal "
-                "trimmed run, spans, nesting = parenthesis nesting, group spans); unbalanced => empty tree; mismatch "
-                "reported iff unbalanced. Print/re-parse equality is proved exhaustively for every string over the "
-                "delimiter alphabet up to length 7 inside the kernel (bounded, as the property's quantifier allows). "
-                "The model is tied to /repo by running the extracted model and the implementation on the same ~62k "
-                "(quick) / ~750k (thorough) strings.",
-        "note": "Trusted: Coq kernel+vm_compute, ExtrOcamlBasic extraction, hand transcription validated by "
-                "correspondence (testing); short/long-form re-parse checked on the implementation only.",
-        "design_ref": "DESIGN.md section 7 C02",
-    },
-}
+_D = os.path.join(os.path.dirname(os.path.abspath(__file__)), "registry.d")
+CLAIMED = {}
+for _p in sorted(glob.glob(os.path.join(_D, "C*.json"))):
+    CLAIMED[os.path.basename(_p)[:-5]] = json.load(open(_p))
 
 NOT_APPLICABLE = {}
